@@ -95,6 +95,10 @@ impl<T> Sender<T> {
     pub(crate) fn verif_chan(&self) -> usize {
         crate::verif::chan_of(self.tx.buffer() as *const _ as usize)
     }
+
+    pub(crate) fn verif_parked(&self) -> usize {
+        self.pending_messages.len()
+    }
 }
 
 impl<T> Receiver<T> {
